@@ -49,6 +49,9 @@ def run(model: RepoModel, rep, tier: str):
     rep.rule("C20.R4", "the synthetic initialiser is nameable: add_main_func names the wrapper with the constant the shipped rule uses and "
                        "is registered for every language", min_instances=2)
     rep.rule("C20.R5", "settings discovery accepts exactly `entry.yaml` and `*-entry.yaml` under the settings directory", min_instances=2)
+    from ..generic import check_accumulators
+    check_accumulators(model, rep, "C20.R6", [EP], {},
+                       "rules or matching methods are skipped, so a configured entry point is not selected", 1)
 
     # ------------------------------------------------------------------ R1
     settings_dir = os.path.join(model.root, "default_settings")
